@@ -60,7 +60,7 @@ func init() {
 var c05PillarCounts = []int{3, 1, 8, 29, 30, 31, 45, 2}
 
 func c05Cases(tier string, seed int64) []string {
-	n := 8
+	n := 16 // every pillar count with random and with equal weights
 	if tier == "thorough" {
 		n = 960
 	}
